@@ -1,5 +1,5 @@
 (* C05 — proofs about the model of keyed redistribution (Model.v). *)
-From Coq Require Import List NArith ZArith Bool Lia Permutation.
+From Coq Require Import List NArith ZArith Bool Lia Permutation SetoidList.
 Import ListNotations.
 Require Import BS.Common.Util BS.C05.Model.
 
@@ -73,7 +73,7 @@ Qed.
 
 Lemma hash_val_lt seed v : seed < two32 -> hash_val seed v < two32.
 Proof.
-  intro H. destruct v; unfold hash_val, hash32, hash64; try (apply sum32_lt, H); try exact H.
+  intro H. destruct v; unfold hash_val, hash_val_gen, hash32, hash64; try (apply sum32_lt, H); try exact H.
   destruct b; [unfold add32; apply w32_lt | exact H].
 Qed.
 
@@ -117,6 +117,52 @@ Proof.
   apply map_ext. intro c. f_equal. lia.
 Qed.
 
+(* ---- Go-equal keys hash alike (current code: the float hash normalises -0.0) ---- *)
+Lemma float_norm_true : float_norm = true.
+Proof. reflexivity. Qed.
+
+Lemma fnorm32_zero x y : fzero32 x = true -> fzero32 y = true ->
+  fnorm32 true (w32 x) = fnorm32 true (w32 y).
+Proof.
+  unfold fzero32, fnorm32. cbv zeta. intros Hx Hy.
+  apply orb_true_iff in Hx. apply orb_true_iff in Hy.
+  destruct Hx as [Hx|Hx], Hy as [Hy|Hy]; apply N.eqb_eq in Hx, Hy; rewrite Hx, Hy; reflexivity.
+Qed.
+
+Lemma fnorm64_zero x y : fzero64 x = true -> fzero64 y = true ->
+  fnorm64 true (w64 x) = fnorm64 true (w64 y).
+Proof.
+  unfold fzero64, fnorm64. cbv zeta. intros Hx Hy.
+  apply orb_true_iff in Hx. apply orb_true_iff in Hy.
+  destruct Hx as [Hx|Hx], Hy as [Hy|Hy]; apply N.eqb_eq in Hx, Hy; rewrite Hx, Hy; reflexivity.
+Qed.
+
+Lemma bytes_eqb_eq x y : bytes_eqb x y = true -> x = y.
+Proof. apply list_eqb_spec. intros a b. apply N.eqb_eq. Qed.
+
+(* kval_eqb is Go's == on the column type for every value that is not NaN *)
+Lemma hash_val_goeq seed a b : kval_eqb a b = true -> hash_val seed a = hash_val seed b.
+Proof.
+  unfold hash_val. rewrite float_norm_true. unfold hash_val_gen.
+  destruct a, b; cbn [kval_eqb]; intro E; try discriminate E; try reflexivity;
+    try (apply bytes_eqb_eq in E; subst; reflexivity);
+    try (apply N.eqb_eq in E; subst; reflexivity);
+    try (apply Z.eqb_eq in E; subst; reflexivity).
+  - apply Bool.eqb_prop in E. subst. reflexivity.
+  - apply orb_true_iff in E as [E|E]; [apply N.eqb_eq in E; subst; reflexivity|].
+    apply andb_true_iff in E as [E1 E2]. rewrite (fnorm32_zero _ _ E1 E2). reflexivity.
+  - apply orb_true_iff in E as [E|E]; [apply N.eqb_eq in E; subst; reflexivity|].
+    apply andb_true_iff in E as [E1 E2]. rewrite (fnorm64_zero _ _ E1 E2). reflexivity.
+Qed.
+
+Lemma key_hash_goeq seed k1 k2 : key_eqb k1 k2 = true -> key_hash seed k1 = key_hash seed k2.
+Proof.
+  unfold key_hash, key_eqb. generalize 0. revert k2.
+  induction k1 as [|a k1 IH]; intros [|b k2] acc E; cbn [list_eqb] in E; try discriminate E; [reflexivity|].
+  apply andb_true_iff in E as [E1 E2]. cbn [fold_left].
+  rewrite (hash_val_goeq seed a b E1). apply IH, E2.
+Qed.
+
 End Bounds.
 
 (* ================================================================== the default partitioner *)
@@ -133,6 +179,12 @@ Proof.
   pose proof (N.mod_lt (key_hash 0 k) (Z.to_N n) E) as L.
   split; [apply N2Z.is_nonneg|].
   apply N2Z.inj_lt in L. rewrite Z2N.id in L by lia. exact L.
+Qed.
+
+(* Go-equal keys (in particular +0.0 and -0.0) get the same shard *)
+Lemma part_goeq k1 k2 n : key_eqb k1 k2 = true -> part k1 n = part k2 n.
+Proof.
+  intro E. unfold part, default_partitioner. rewrite (key_hash_goeq 0%N k1 k2 E). reflexivity.
 Qed.
 
 (* with one partition everything is partition 0 *)
@@ -540,6 +592,18 @@ Section Redistribution.
     destruct I as (_ & _ & D). rewrite keyed_dest in D by exact Hn. lia.
   Qed.
 
+  (* the same for keys that are equal as Go values: +0.0 and -0.0 included *)
+  Theorem colocated_goeq n prods outs p1 p2 r1 r2 :
+    1 <= n < 4294967296 -> shuffle keyed_pf n prods = Some outs ->
+    In r1 (nth p1 outs []) -> In r2 (nth p2 outs []) ->
+    key_eqb (keyof r1) (keyof r2) = true -> p1 = p2.
+  Proof.
+    intros Hn S I1 I2 E.
+    pose proof (shard_is_part n prods outs p1 r1 Hn S I1) as D1.
+    pose proof (shard_is_part n prods outs p2 r2 Hn S I2) as D2.
+    rewrite (part_goeq _ _ n E) in D1. lia.
+  Qed.
+
   (* ---- keyed aggregation: if every consumer shard emits each key it received once,
           every key of the input occurs in exactly one row of the whole result ---- *)
   Context {B : Type}.
@@ -622,6 +686,75 @@ Section Redistribution.
         apply in_map_iff in Ik as (b & Eb & Ib). apply in_map_iff. exists b. split; [exact Eb|].
         apply in_concat_nth. exists p. rewrite L. auto.
   Qed.
+  (* ---- the same with key equality as Go's ==: no guard about negative zero ---- *)
+  Definition keq (k1 k2 : list kval) : Prop := key_eqb k1 k2 = true.
+
+  Lemma NoDupA_app_disjoint {T} (eqT : T -> T -> Prop) (l l' : list T) :
+    NoDupA eqT l -> NoDupA eqT l' -> (forall x y, In x l -> In y l' -> ~ eqT x y) -> NoDupA eqT (l ++ l').
+  Proof.
+    intros N N' D. induction l as [|x l IH]; cbn [app]; [exact N'|].
+    inversion N as [|? ? Nx Nl]; subst. constructor.
+    - intro I. apply InA_app_iff in I as [I|I]; [exact (Nx I)|].
+      apply InA_alt in I as (y & Exy & Iy). exact (D x y (or_introl eq_refl) Iy Exy).
+    - apply IH; [exact Nl|]. intros a b Ha Hb. apply D; [right; exact Ha | exact Hb].
+  Qed.
+
+  Lemma NoDupA_concat_disjoint {T} (eqT : T -> T -> Prop) : forall (ls : list (list T)),
+    (forall p, NoDupA eqT (nth p ls [])) ->
+    (forall p q x y, In x (nth p ls []) -> In y (nth q ls []) -> eqT x y -> p = q) ->
+    NoDupA eqT (concat ls).
+  Proof.
+    induction ls as [|l ls IH]; intros N D; cbn [concat]; [constructor|].
+    apply NoDupA_app_disjoint.
+    - exact (N 0%nat).
+    - apply IH; [intro p; exact (N (S p))|]. intros p q x y Hp Hq E.
+      assert (S p = S q) by (apply (D (S p) (S q) x y); assumption). lia.
+    - intros x y Hx Hc E. apply in_concat in Hc as (l' & Hl' & Hy).
+      apply In_nth with (d := []) in Hl' as (q & _ & Eq). subst l'.
+      assert (0%nat = S q) by (apply (D 0%nat (S q) x y); assumption). lia.
+  Qed.
+
+  Theorem keyed_distinct_global_goeq n prods shards (outs : list (list B)) :
+    1 <= n < 4294967296 -> shuffle keyed_pf n prods = Some shards ->
+    length outs = Z.to_nat n ->
+    (forall p, (p < Z.to_nat n)%nat ->
+        NoDupA keq (map keyB (nth p outs [])) /\
+        (forall b, In b (nth p outs []) -> exists r, In r (nth p shards []) /\ keq (keyB b) (keyof r)) /\
+        (forall r, In r (nth p shards []) -> exists b, In b (nth p outs []) /\ keq (keyof r) (keyB b))) ->
+    NoDupA keq (map keyB (concat outs)) /\
+    forall r, In r (all_rows prods) -> exists b, In b (concat outs) /\ keq (keyof r) (keyB b).
+  Proof.
+    intros Hn S L H.
+    assert (Hn1 : 1 <= n) by lia.
+    assert (NM : forall p, nth p (map (map keyB) outs) [] = map keyB (nth p outs [])).
+    { intro p. change (@nil (list kval)) with (map keyB []). apply map_nth. }
+    assert (InLt : forall T (ls : list (list T)) p x, length ls = Z.to_nat n -> In x (nth p ls []) -> (p < Z.to_nat n)%nat).
+    { intros T ls p x Ll I. destruct (Nat.lt_ge_cases p (Z.to_nat n)); [assumption|].
+      rewrite nth_overflow in I by lia. destruct I. }
+    split.
+    - rewrite concat_map. apply NoDupA_concat_disjoint.
+      + intro p. rewrite NM. destruct (Nat.lt_ge_cases p (Z.to_nat n)) as [Lt|Ge].
+        * apply H, Lt.
+        * rewrite nth_overflow by lia. constructor.
+      + intros p q k k' Hp Hq E. rewrite NM in Hp, Hq.
+        apply in_map_iff in Hp as (b1 & E1 & I1). apply in_map_iff in Hq as (b2 & E2 & I2). subst k k'.
+        pose proof (InLt _ outs p b1 L I1) as Lp. pose proof (InLt _ outs q b2 L I2) as Lq.
+        destruct (H p Lp) as (_ & Hb1 & _). destruct (H q Lq) as (_ & Hb2 & _).
+        destruct (Hb1 b1 I1) as (r1 & Ir1 & K1). destruct (Hb2 b2 I2) as (r2 & Ir2 & K2).
+        pose proof (shard_is_part n prods shards p r1 Hn S Ir1) as D1.
+        pose proof (shard_is_part n prods shards q r2 Hn S Ir2) as D2.
+        unfold keq in *.
+        rewrite <- (part_goeq _ _ n K1) in D1. rewrite <- (part_goeq _ _ n K2) in D2.
+        rewrite (part_goeq _ _ n E) in D1. lia.
+    - intros r Ir.
+      pose proof (dest_range keyed_pf n prods shards r Hn1 S Ir) as R.
+      set (p := Z.to_nat (dest keyed_pf n r)).
+      assert (Lp : (p < Z.to_nat n)%nat) by (unfold p; lia).
+      assert (Is : In r (nth p shards [])).
+      { apply (shuffle_in keyed_pf n prods shards); [exact Hn1|exact S|]. unfold p. repeat split; auto; lia. }
+      destruct (H p Lp) as (_ & _ & Hr). destruct (Hr r Is) as (b & Ib & K).
+      exists b. split; [|exact K]. apply in_concat_nth. exists p. rewrite L. auto.
+  Qed.
 End Redistribution.
 
 (* ---- Repartition: the user function's value is the shard ---- *)
@@ -701,9 +834,15 @@ Example fold_prefix2_splits_key :
   part [VString [97]; VInt 1] 3 <> part [VString [97]; VInt 3] 3.
 Proof. vm_compute. discriminate. Qed.
 
-(* +0.0 and -0.0 are equal float64 keys with different bit patterns, hence different
-   hashes and (for 4 shards) different shards (finding float-negzero-key) *)
-Example negzero_splits_key :
-  part [VFloat64 0] 4 <> part [VFloat64 0x8000000000000000] 4.
+(* the former code ([norm = false]: the bits of x, not of x+0, were hashed): +0.0 and
+   -0.0 are equal float64 keys with different hashes and, for 4 shards, different
+   shards (former finding float-negzero-key, repaired in /repo) *)
+Example negzero_split_key_formerly :
+  (hash_val_gen false 0 (VFloat64 0) mod 4 <> hash_val_gen false 0 (VFloat64 0x8000000000000000) mod 4).
 Proof. vm_compute. discriminate. Qed.
+(* the current code sends them to the same shard, for every shard count *)
+Example negzero_same_shard n :
+  part [VFloat64 0] n = part [VFloat64 0x8000000000000000] n
+  /\ part [VFloat32 0] n = part [VFloat32 0x80000000] n.
+Proof. split; apply part_goeq; reflexivity. Qed.
 End Vectors.
